@@ -362,9 +362,6 @@ Section WordSimG.
     rewrite <- (trans_fun s _ to' to Htr' Htr). exact Hk.
   Qed.
 
-  Definition has_any (mv : list (wleaf * rx wleaf)) : bool :=
-    existsb (fun ak => match fst ak with WAny => true | _ => false end) mv.
-
   Lemma star_row s S : wrel s S ->
     (match t_mstar Tw with Some stars => has_key s stars | None => false end) = has_any (mvs S).
   Proof.
@@ -540,20 +537,24 @@ Section WordSimG.
      end) = Ok (lit_stage_res b s sub).
   Proof. unfold lit_stage_res. destruct (assocN s (t_mlit Tw)); reflexivity. Qed.
 
-  Theorem sw_match_gacc word : forall g f s S ci log, wrel s S ->
+  Lemma star_first_any s S : wrel s S -> star_first Repaired false Tw s = has_any (mvs S).
+  Proof. intro R. unfold star_first. cbn [quirky negb andb]. apply (star_row s S R). Qed.
+
+  Theorem sw_match_sacc word : forall g f s S ci log, wrel s S ->
     (String.length (Glob.sdrop ci word) <= g)%nat -> (g < f)%nat ->
     exists st' ci' log',
-      sw_loop f Repaired false a benv Tw (d_accepting sd) word s ci log = Ok (gacc en g S (Glob.sdrop ci word), st', ci', log').
+      sw_loop f Repaired false a benv Tw (d_accepting sd) word s ci log = Ok (sacc en g S (Glob.sdrop ci word), st', ci', log').
   Proof.
     induction g as [| g IH]; intros f s S ci log R Hg Hf; (destruct f as [| f]; [lia |]); cbn [sw_loop quirky orb];
       rewrite length_sdrop in Hg; destruct (Nat.leb (String.length word) ci) eqn:El.
-    - apply Nat.leb_le in El. rewrite (gsdrop_nil_iff ci word El). cbn [gacc]. rewrite (accept_eq s S R). eauto.
+    - apply Nat.leb_le in El. rewrite (gsdrop_nil_iff ci word El). cbn [sacc]. rewrite (accept_eq s S R). eauto.
     - apply Nat.leb_gt in El. lia.
-    - apply Nat.leb_le in El. rewrite (gsdrop_nil_iff ci word El). cbn [gacc]. rewrite (accept_eq s S R). eauto.
+    - apply Nat.leb_le in El. rewrite (gsdrop_nil_iff ci word El). cbn [sacc]. rewrite (accept_eq s S R). eauto.
     - apply Nat.leb_gt in El.
       assert (Hlen : String.length (Glob.sdrop ci word) = (String.length word - ci)%nat) by apply length_sdrop.
       destruct (Glob.sdrop ci word) as [| ch r] eqn:Esub; [cbn in Hlen; lia |].
-      set (sub := String ch r) in *. cbn [gacc]. fold sub. fold (mvs S).
+      set (sub := String ch r) in *. cbn [sacc]. fold sub. fold (mvs S).
+      rewrite (star_first_any s S R). destruct (has_any (mvs S)) eqn:Hany; [eauto |].
       match goal with |- context [obind ?X _] =>
         assert (EL : X = Ok (lit_stage_res false s sub)) by apply lit_call; rewrite EL end.
       cbn [obind]. pose proof (lit_stage false s S sub R) as Hl.
@@ -578,15 +579,16 @@ Section WordSimG.
           -- lia.
           -- rewrite gsdrop_add, Esub in E. fold sub in E. rewrite gsdrop_eq in E. eauto.
         * destruct Hc as [Hb _]. discriminate.
-        * destruct Hc as [Efc _]. rewrite Efc. pose proof (star_row s S R) as Hst. unfold has_any in Hst. rewrite <- Hst.
-          destruct (t_mstar Tw) as [stars |]; [destruct (has_key s stars) |]; eauto.
+        * destruct Hc as [Efc _]. rewrite Efc. pose proof (star_row s S R) as Hst. rewrite Hany in Hst.
+          destruct (t_mstar Tw) as [stars |]; [rewrite Hst |]; eauto.
   Qed.
 
   Theorem subword_matches_gen w : d_start sd = 0 ->
-    forall log, exists log', subword_matches Repaired a benv Tw (d_accepting sd) w log = Ok (gaccepts en x w, log').
+    forall log, exists log', subword_matches Repaired a benv Tw (d_accepting sd) w log = Ok (waccepts en x w, log').
   Proof.
-    intros H0 log. unfold subword_matches, subword_matches_from, gaccepts.
-    destruct (sw_match_gacc w (String.length w) (sw_fuel Tw w) 0 [x] 0%nat log) as [st' [ci' [log' E]]].
+    intros H0 log. unfold subword_matches, subword_matches_from.
+    rewrite <- (saccepts_waccepts en x Hdom Henvw w). unfold saccepts.
+    destruct (sw_match_sacc w (String.length w) (sw_fuel Tw w) 0 [x] 0%nat log) as [st' [ci' [log' E]]].
     - rewrite <- H0. apply wrel_start.
     - cbn [Glob.sdrop]. lia.
     - unfold sw_fuel. lia.
@@ -632,7 +634,7 @@ Section WordSimG.
                                  end
                       end
                   end).
-      { intro log. cbn [sw_loop quirky orb]. rewrite El'. fold sub.
+      { intro log. cbn [sw_loop quirky orb]. rewrite El'. unfold star_first. cbn [quirky negb andb]. fold sub.
         match goal with |- context [obind ?X _] =>
           assert (EL : X = Ok (lit_stage_res true s sub)) by apply lit_call; rewrite EL end.
         cbn [obind]. reflexivity. }
